@@ -14,6 +14,9 @@ from core import Rejected, Violation, guarded, require, scratch_dir
 
 ID = "C05"
 LEVEL = "exploration"
+LEVEL_TEXT = (
+    "Differential testing of one dataset under a reference and a drawn configuration (chunk sizes, workers, injected delays, format); held on all generated pairs. Thread interleavings are perturbed, not enumerated."
+)
 TECHNIQUE = (
     "differential testing over Hypothesis-generated (dataset, configuration) pairs: the same table run through "
     "read_pin -> brew -> assign_confidence under a reference configuration and under drawn chunk sizes / workers / "
